@@ -69,7 +69,8 @@ def run(run, tier, seed, args):
             m.bounded(run, tier, seed)
     run.assumptions += [
         "assumed contracts: Pool._create_connection creates exactly one record or raises with nothing created; record.close() on the Full path retires the slot; Condition.wait() may change the queue arbitrarily but re-establishes the monitor invariant",
-        "monitor reading: an invariant proved for every critical section holds under every schedule provided every write is inside the lock (lock-discipline obligation); dispose() is excluded by name",
+        "interference model (rely/guarantee reading of the monitor): other threads may change _overflow, the ghost counters and the queue at every statement outside the lock, at lock acquisition and around calls out of the pool, subject to the monitor invariant, which this thread proves before each such point; `+=` on an int attribute is one atomic step; dispose() is excluded by name",
+        "ghost statements (pending/mine bookkeeping) are attached to `self._overflow += 1` / `-= 1` by source text; they touch ghost fields only",
         "NOT decided: 'one connection never held by two checkouts' beyond the queue handing each stored element out once; wake-ups, time-outs, fairness; AsyncAdaptedQueuePool, SingletonThreadPool, StaticPool, NullPool; real interleavings",
         "partial correctness for the recursive QueuePool._do_get",
     ]
